@@ -772,7 +772,9 @@ where
             match ch.try_recv() {
                 Ok(Hit(hash, entry, timestamp)) => {
                     freq.increment(hash);
-                    entry.set_last_accessed(timestamp);
+                    // This read may be older than the entry's latest update. Never
+                    // move the last accessed time backwards.
+                    entry.entry_info().advance_last_accessed(timestamp);
                     if entry.is_admitted() {
                         deqs.move_to_back_ao(&entry);
                     }
